@@ -15,7 +15,7 @@ impl ProgProperty for C03 {
         "C03"
     }
     fn rule(&self) -> String {
-        "generated programs (wide SCC 40%, structured 30%, bigconst 12%, raw 10%, roaming 5%, deep 3%) x input x width, run by BaseJitCompiler::execute at levels 0..3, compared event-for-event with the reference. For bigconst and shl programs (an input byte multiplied up to a * 2^k, then a zero test) whose canonical run is too long to finish, the JIT is compared with the IR and bytecode interpreters at the same level and blamed only if it is the odd one out (IR = BC != JIT). Non-trivial: the bytecode the JIT compiles (hook) uses stack temporaries (temps >= 12), or keeps a register temporary live across a runtime-calling instruction, or has an immediate outside i32; distinct = distinct (program, input, width). coverage.sets['jit-forms'] lists the instruction-selector arms (opcode x dst kind x src kinds) reached".into()
+        "generated programs (wide SCC 40%, structured 30%, bigconst 12%, raw 10%, roaming 5%, deep 3%) x input x width, run by BaseJitCompiler::execute at levels 0..3, compared event-for-event with the reference. For bigconst and shl programs (an input byte multiplied up to a * 2^k, then a zero test) whose canonical run is too long to finish, the JIT is compared with the IR and bytecode interpreters at the same level and blamed only if it is the odd one out (IR = BC != JIT). Non-trivial: the bytecode the JIT compiles (hook) uses stack temporaries (temps >= 12), or keeps a register temporary live across a runtime-calling instruction, or has an immediate outside i32; distinct = distinct (program, input, width). coverage.sets['jit-forms'] lists the instruction-selector arms (opcode x dst kind x src kinds) reached A third of the halting programs at 16/32 bit and two thirds at 64 bit carry the upper-bits probe (family `...+probe`): an appended epilogue takes the canonical final value of every small-magnitude cell out again, counts the cells in which anything is left and prints the count (0 canonically), which makes the bits above the low byte observable.".into()
     }
     fn assumptions(&self) -> Vec<String> {
         vec!["secondary oracle (bigconst and shl programs with unknown canonical fate only): differential 2-of-3 vote, cannot detect a defect shared by all three back ends".into()]
@@ -133,6 +133,6 @@ impl ProgProperty for C03 {
     }
     fn floors(&self, tier: Tier) -> Vec<(&'static str, u64)> {
         let q = if tier == Tier::Quick { 1 } else { 20 };
-        vec![("nontrivial", 3000 * q), ("stack-temporaries(temps>=12)", 600 * q), ("jit-forms", if tier == Tier::Quick { 60 } else { 70 })]
+        vec![("nontrivial", 3000 * q), ("stack-temporaries(temps>=12)", 600 * q), ("family:shl(vote)", 150 * q), ("jit-forms", if tier == Tier::Quick { 60 } else { 70 })]
     }
 }
